@@ -28,6 +28,7 @@ import (
 	"fmt"
 	"go/ast"
 	"go/token"
+	"os"
 	"regexp"
 	"sort"
 	"strings"
@@ -37,17 +38,31 @@ type c09Anchor struct {
 	dir    string
 	typ    string
 	fields []string
+	// methodPrefix != "": the anchored state is the OBJECT behind the (immutable) field, and
+	// only calls of its methods with this name prefix touch it (cc.fr: the Framer's write side
+	// is what wmu guards; ReadFrame belongs to the read loop alone)
+	methodPrefix string
 }
 
 // The anchored shared state of property C09 (properties.jsonl, anchors.state). The order
 // fixes the field ids used by lean/Bridge/C09.lean — append only.
 var c09Anchors = []c09Anchor{
-	{"", "Transport", []string{"pendingAltSvcs"}},    // 0
-	{"pkg/altsvc", "AltSvcJar", []string{"entries"}}, // 1
-	{"", "Transport", []string{"idleConn", "idleConnWait", "idleLRU", "connsPerHost", "connsPerHostWait", "dialsInProgress"}}, // 2..7
-	{"internal/http2", "clientConnPool", []string{"conns", "dialing", "keys", "addConnCalls"}},                                // 8..11
-	{"internal/http3", "RoundTripper", []string{"clients"}},                                                                   // 12
-	{"internal/http3", "RoundTripper", []string{"transport"}},                                                                 // 13 (lazily created quic.Transport; finding C09-4)
+	{"", "Transport", []string{"pendingAltSvcs"}, ""},                                                                             // 0
+	{"pkg/altsvc", "AltSvcJar", []string{"entries"}, ""},                                                                          // 1
+	{"", "Transport", []string{"idleConn", "idleConnWait", "idleLRU", "connsPerHost", "connsPerHostWait", "dialsInProgress"}, ""}, // 2..7
+	{"internal/http2", "clientConnPool", []string{"conns", "dialing", "keys", "addConnCalls"}, ""},                                // 8..11
+	{"internal/http3", "RoundTripper", []string{"clients"}, ""},                                                                   // 12
+	{"internal/http3", "RoundTripper", []string{"transport"}, ""},                                                                 // 13 (lazily created quic.Transport; finding C09-4)
+	// the HTTP/2 demultiplexer state of one ClientConn ("mu guards following")
+	{"internal/http2", "ClientConn", []string{"streams", "nextStreamID", "pendingRequests", "streamsReserved", "goAway", "closed"}, ""}, // 14..19
+	// peer settings ("also guarded by wmu"): written under mu AND wmu, read under either
+	{"internal/http2", "ClientConn", []string{"maxConcurrentStreams", "initialWindowSize", "maxFrameSize"}, ""}, // 20..22
+	// HTTP/3: datagram streams of one connection
+	{"internal/http3", "connection", []string{"streams"}, ""}, // 23
+	// the write side of an HTTP/2 connection ("wmu is held while writing"): buffered writer,
+	// HPACK encoder and its buffer
+	{"internal/http2", "ClientConn", []string{"bw", "hbuf"}, ""}, // 24, 25
+	{"internal/http2", "ClientConn", []string{"fr"}, "Write"},    // 26: Framer.Write* only
 }
 
 // Setup-time setters: documented to be called while configuring, not concurrently with
@@ -56,6 +71,9 @@ var c09Anchors = []c09Anchor{
 var c09ConfigFuncs = map[string]bool{
 	"Transport.EnableHTTP3":  true,
 	"Transport.DisableHTTP3": true,
+	// constructor: the ClientConn is not yet visible to any other goroutine (go cc.readLoop()
+	// is its last statement)
+	"Transport.newClientConn": true,
 }
 
 type c09Access struct {
@@ -67,19 +85,27 @@ type c09Access struct {
 	held  []string
 }
 
-var c09HeldRe = regexp.MustCompile(`([A-Za-z_]\w*(?:\.[A-Za-z_]\w*)+) (?:must be|is) held`)
+var c09HeldRe = regexp.MustCompile(`([A-Za-z_]\w*(?:\.[A-Za-z_]\w*)+) (?:must be|is|be) held`)
+
+// "Must hold cc.mu." / "must hold t.idleMu"
+var c09HoldRe = regexp.MustCompile(`[Mm]ust hold ([A-Za-z_]\w*(?:\.[A-Za-z_]\w*)+)`)
 
 type c09Pkg struct {
-	c       *ctx
-	dir     string
-	structs map[string]map[string]ast.Expr // struct -> field -> type expr
-	anchors map[string]string              // field name -> struct type (anchored)
-	funcs   []*ast.FuncDecl
+	c            *ctx
+	dir          string
+	structs      map[string]map[string]ast.Expr // struct -> field -> type expr
+	anchors      map[string]string              // field name -> struct type (anchored)
+	methodPrefix map[string]string              // anchored field name -> method-name prefix filter
+	funcs        []*ast.FuncDecl
 	// caller-holds functions: "Recv.name" -> locks held at entry
 	entryLocks map[string][]string
 	tracked    map[string]bool // caller-holds functions that get an entry pseudo-field
-	out        []c09Access
-	err        error
+	// …Locked functions whose doc comment names no lock: the entry lock set is INFERRED as the
+	// intersection of the lock sets held at all call sites (fixpoint, since callers may be
+	// caller-holds functions themselves)
+	inferred map[string]bool
+	out      []c09Access
+	err      error
 }
 
 func c09BaseType(e ast.Expr) string {
@@ -100,6 +126,22 @@ func c09BaseType(e ast.Expr) string {
 			return ""
 		}
 	}
+}
+
+func c09Unexported(name string) bool {
+	return name != "" && name[0] >= 'a' && name[0] <= 'z'
+}
+
+func c09CalleeName(e ast.Expr) string {
+	switch t := e.(type) {
+	case *ast.Ident:
+		return t.Name
+	case *ast.SelectorExpr:
+		return t.Sel.Name
+	case *ast.ParenExpr:
+		return c09CalleeName(t.X)
+	}
+	return ""
 }
 
 func c09Recv(fd *ast.FuncDecl) (name, typ string) {
@@ -126,6 +168,66 @@ type c09Scan struct {
 	p   *c09Pkg
 	fn  string
 	env map[string]string // local identifier -> struct type ("" = known to be unresolvable)
+	// closures bound to a local variable that is only ever CALLED in this function
+	// (`w := func(..){..}; if x { w = func(..){..} }; w(a)`): their bodies run where the variable
+	// is called, with the locks held there. A variable that escapes (passed on, returned,
+	// stored) keeps the conservative reading: the body runs with unknown locks.
+	localFuncs map[string][]*ast.FuncLit
+	escaping   map[string]bool
+	inlining   int
+}
+
+// c09Escaping finds the local names that occur anywhere but in the function position of a call
+// or on the left of an assignment / declaration.
+func c09Escaping(body *ast.BlockStmt) map[string]bool {
+	esc := map[string]bool{}
+	if body == nil {
+		return esc
+	}
+	ok := map[*ast.Ident]bool{}
+	ast.Inspect(body, func(n ast.Node) bool {
+		switch t := n.(type) {
+		case *ast.CallExpr:
+			if id, isID := t.Fun.(*ast.Ident); isID {
+				ok[id] = true
+			}
+		case *ast.AssignStmt:
+			for _, l := range t.Lhs {
+				if id, isID := l.(*ast.Ident); isID {
+					ok[id] = true
+				}
+			}
+		case *ast.ValueSpec:
+			for _, id := range t.Names {
+				ok[id] = true
+			}
+		case *ast.SelectorExpr:
+			ok[t.Sel] = true
+		case *ast.KeyValueExpr:
+			if id, isID := t.Key.(*ast.Ident); isID {
+				ok[id] = true
+			}
+		}
+		return true
+	})
+	ast.Inspect(body, func(n ast.Node) bool {
+		if id, isID := n.(*ast.Ident); isID && !ok[id] {
+			esc[id.Name] = true
+		}
+		return true
+	})
+	return esc
+}
+
+// bindFunc registers `name = func…` for call-site inlining; false = scan it the conservative way.
+func (s *c09Scan) bindFunc(lhs ast.Expr, rhs ast.Expr) bool {
+	id, isID := lhs.(*ast.Ident)
+	lit, isLit := rhs.(*ast.FuncLit)
+	if !isID || !isLit || id.Name == "_" || s.escaping[id.Name] {
+		return false
+	}
+	s.localFuncs[id.Name] = append(s.localFuncs[id.Name], lit)
+	return true
 }
 
 func (s *c09Scan) bind(name, typ string) {
@@ -290,7 +392,9 @@ func (s *c09Scan) expr(e ast.Expr, held c09Set, topKind string) {
 	switch t := e.(type) {
 	case *ast.SelectorExpr:
 		if name, ok := s.anchoredField(t); ok {
-			s.record(name, topKind, t.Pos(), held)
+			if s.p.methodPrefix[t.Sel.Name] == "" { // else: only method calls count (see call)
+				s.record(name, topKind, t.Pos(), held)
+			}
 			s.expr(t.X, held, "read")
 			return
 		}
@@ -353,8 +457,16 @@ func (s *c09Scan) call(call *ast.CallExpr, held c09Set) {
 				return
 			}
 		}
-		if locks, ok := s.p.entryLocks[id.Name]; ok && s.p.tracked[id.Name] && len(locks) > 0 {
+		if locks, ok := s.p.entryLocks[id.Name]; ok && s.p.tracked[id.Name] && (len(locks) > 0 || s.p.inferred[id.Name]) {
 			s.record("entry:"+id.Name, "callsite", call.Pos(), held)
+		}
+		if lits := s.localFuncs[id.Name]; len(lits) > 0 && s.inlining < 4 {
+			// a call of a local closure variable: any of the closures bound to it may run here
+			s.inlining++
+			for _, lit := range lits {
+				s.funcBody(lit.Body, held.clone())
+			}
+			s.inlining--
 		}
 	}
 	if sel, ok := call.Fun.(*ast.SelectorExpr); ok {
@@ -362,7 +474,9 @@ func (s *c09Scan) call(call *ast.CallExpr, held c09Set) {
 		// conservatively a write of the field
 		if inner, ok2 := sel.X.(*ast.SelectorExpr); ok2 {
 			if name, ok3 := s.anchoredField(inner); ok3 {
-				s.record(name, "call", inner.Pos(), held)
+				if pre := s.p.methodPrefix[inner.Sel.Name]; pre == "" || strings.HasPrefix(sel.Sel.Name, pre) {
+					s.record(name, "call", inner.Pos(), held)
+				}
 				s.expr(inner.X, held, "read")
 			} else {
 				s.expr(sel.X, held, "read")
@@ -495,7 +609,10 @@ func (s *c09Scan) stmt(st ast.Stmt, held c09Set, loop *c09Loop) (c09Set, bool) {
 		}
 		return held, false
 	case *ast.AssignStmt:
-		for _, r := range t.Rhs {
+		for i, r := range t.Rhs {
+			if len(t.Lhs) == len(t.Rhs) && s.bindFunc(t.Lhs[i], r) {
+				continue // scanned where the variable is called
+			}
 			s.expr(r, held, "read")
 		}
 		if t.Tok == token.DEFINE {
@@ -519,7 +636,10 @@ func (s *c09Scan) stmt(st ast.Stmt, held c09Set, loop *c09Loop) (c09Set, bool) {
 		if gd, ok := t.Decl.(*ast.GenDecl); ok {
 			for _, sp := range gd.Specs {
 				if vs, ok := sp.(*ast.ValueSpec); ok {
-					for _, v := range vs.Values {
+					for i, v := range vs.Values {
+						if len(vs.Values) == len(vs.Names) && s.bindFunc(vs.Names[i], v) {
+							continue
+						}
 						s.expr(v, held, "read")
 					}
 					for i, n := range vs.Names {
@@ -762,7 +882,8 @@ func (p *c09Pkg) load() error {
 }
 
 func (p *c09Pkg) newScan(fd *ast.FuncDecl) *c09Scan {
-	s := &c09Scan{p: p, fn: c09FuncName(fd), env: map[string]string{}}
+	s := &c09Scan{p: p, fn: c09FuncName(fd), env: map[string]string{}, localFuncs: map[string][]*ast.FuncLit{},
+		escaping: c09Escaping(fd.Body)}
 	rn, rt := c09Recv(fd)
 	if rn != "" {
 		if _, ok := p.structs[rt]; ok {
@@ -807,12 +928,88 @@ func (p *c09Pkg) run() error {
 	}
 	// pass 1: caller-holds functions (doc comment names the lock)
 	p.entryLocks = map[string][]string{}
+	p.inferred = map[string]bool{}
+	// names of package functions that are started with go, deferred, or appear outside the
+	// function position of a call (method values, callbacks, interface satisfaction is not
+	// visible syntactically: exported names are never inferred)
+	asyncOrValue := map[string]bool{}
+	fnNames := map[string]bool{}
+	for _, fd := range p.funcs {
+		fnNames[fd.Name.Name] = true
+	}
+	for _, fd := range p.funcs {
+		callFuns := map[ast.Expr]bool{}
+		localNames := map[string]bool{} // identifiers the function declares itself
+		ast.Inspect(fd, func(n ast.Node) bool {
+			switch t := n.(type) {
+			case *ast.GoStmt:
+				asyncOrValue[c09CalleeName(t.Call.Fun)] = true
+			case *ast.DeferStmt:
+				asyncOrValue[c09CalleeName(t.Call.Fun)] = true
+			case *ast.CallExpr:
+				callFuns[t.Fun] = true
+			case *ast.AssignStmt:
+				if t.Tok == token.DEFINE {
+					for _, l := range t.Lhs {
+						if id, ok := l.(*ast.Ident); ok {
+							localNames[id.Name] = true
+						}
+					}
+				}
+			case *ast.ValueSpec:
+				for _, id := range t.Names {
+					localNames[id.Name] = true
+				}
+			case *ast.Field:
+				for _, id := range t.Names {
+					localNames[id.Name] = true
+				}
+			case *ast.RangeStmt:
+				if id, ok := t.Key.(*ast.Ident); ok {
+					localNames[id.Name] = true
+				}
+				if id, ok := t.Value.(*ast.Ident); ok {
+					localNames[id.Name] = true
+				}
+			}
+			return true
+		})
+		selIdent := map[*ast.Ident]bool{}
+		ast.Inspect(fd, func(n ast.Node) bool {
+			switch t := n.(type) {
+			case *ast.SelectorExpr:
+				selIdent[t.Sel] = true
+				if !callFuns[t] && fnNames[t.Sel.Name] {
+					asyncOrValue[t.Sel.Name] = true
+				}
+			case *ast.KeyValueExpr:
+				if id, ok := t.Key.(*ast.Ident); ok {
+					selIdent[id] = true // struct literal key
+				}
+			case *ast.Ident:
+				if !selIdent[t] && !callFuns[t] && fnNames[t.Name] && t.Obj == nil && !localNames[t.Name] && t != fd.Name {
+					asyncOrValue[t.Name] = true
+				}
+			}
+			return true
+		})
+	}
+	if os.Getenv("GOFACTS_C09_DEBUG") != "" {
+		var l []string
+		for n := range asyncOrValue {
+			l = append(l, n)
+		}
+		sort.Strings(l)
+		fmt.Fprintf(os.Stderr, "asyncOrValue %s: %v\n", p.dir, l)
+	}
 	for _, fd := range p.funcs {
 		name := c09FuncName(fd)
 		var locks []string
 		if fd.Doc != nil {
 			s := p.newScan(fd)
-			for _, m := range c09HeldRe.FindAllStringSubmatch(fd.Doc.Text(), -1) {
+			ms := c09HeldRe.FindAllStringSubmatch(fd.Doc.Text(), -1)
+			ms = append(ms, c09HoldRe.FindAllStringSubmatch(fd.Doc.Text(), -1)...)
+			for _, m := range ms {
 				parts := strings.Split(m[1], ".")
 				var e ast.Expr = ast.NewIdent(parts[0])
 				for _, q := range parts[1:] {
@@ -827,7 +1024,14 @@ func (p *c09Pkg) run() error {
 		if len(locks) > 0 {
 			p.entryLocks[name] = locks
 		} else if strings.HasSuffix(fd.Name.Name, "Locked") {
-			p.entryLocks[name] = nil // convention without a documented lock
+			p.entryLocks[name] = nil // convention without a documented lock: inferred below
+			p.inferred[name] = true
+		} else if c09Unexported(fd.Name.Name) && !asyncOrValue[fd.Name.Name] && fd.Name.Name != "init" && fd.Name.Name != "main" {
+			// an unexported function that is only ever CALLED (never started with go, deferred,
+			// or used as a value): whatever all its call sites hold, it holds. This is what keeps
+			// the table stable when a critical section is split into helpers.
+			p.entryLocks[name] = nil
+			p.inferred[name] = true
 		}
 	}
 	// pass 2: which caller-holds functions touch anchored state (directly or through another
@@ -855,13 +1059,112 @@ func (p *c09Pkg) run() error {
 			break
 		}
 	}
+	// pass 2b: infer the entry lock set of tracked …Locked functions without a documented lock:
+	// start from "every lock of the package", shrink to the intersection over the call sites
+	// until stable. A function nobody calls ends with the empty set.
+	anyInferred := false
+	for name := range p.inferred {
+		if p.tracked[name] {
+			anyInferred = true
+		}
+	}
+	if anyInferred {
+		all := c09Set{}
+		dry := func() []c09Access {
+			save, saveErr := p.out, p.err
+			p.out = nil
+			for _, fd := range p.funcs {
+				name := c09FuncName(fd)
+				s := p.newScan(fd)
+				held := c09Set{}
+				if locks, ok := p.entryLocks[name]; ok && p.tracked[name] {
+					for _, l := range locks {
+						held[l] = true
+					}
+				}
+				s.funcBody(fd.Body, held)
+			}
+			out := p.out
+			p.out, p.err = save, saveErr
+			return out
+		}
+		for _, a := range dry() {
+			for _, l := range a.held {
+				all[l] = true
+			}
+		}
+		// also the locks that are only ever taken around calls (no anchored access in between)
+		for _, fd := range p.funcs {
+			s := p.newScan(fd)
+			ast.Inspect(fd, func(n ast.Node) bool {
+				if es, ok := n.(*ast.ExprStmt); ok {
+					if target, isLock, ok := c09LockCall(es.X); ok && isLock {
+						if ln := s.lockName(target); !strings.HasPrefix(ln, "?") {
+							all[ln] = true
+						}
+					}
+				}
+				return true
+			})
+		}
+		for name := range p.inferred {
+			if p.tracked[name] {
+				p.entryLocks[name] = all.list()
+			}
+		}
+		for iter := 0; iter < 10; iter++ {
+			sites := map[string][]c09Set{}
+			for _, a := range dry() {
+				if a.kind == "callsite" && strings.HasPrefix(a.field, "entry:") {
+					fn := strings.TrimPrefix(a.field, "entry:")
+					h := c09Set{}
+					for _, l := range a.held {
+						h[l] = true
+					}
+					sites[fn] = append(sites[fn], h)
+				}
+			}
+			changed := false
+			for name := range p.inferred {
+				if !p.tracked[name] {
+					continue
+				}
+				nw := c09Set{}
+				if ss := sites[name]; len(ss) > 0 {
+					nw = ss[0].clone()
+					for _, h := range ss[1:] {
+						nw = nw.inter(h)
+					}
+				}
+				if strings.Join(nw.list(), ",") != strings.Join(p.entryLocks[name], ",") {
+					p.entryLocks[name] = nw.list()
+					changed = true
+				}
+			}
+			if !changed {
+				break
+			}
+		}
+		if os.Getenv("GOFACTS_C09_DEBUG") != "" {
+			for name := range p.inferred {
+				if p.tracked[name] {
+					fmt.Fprintf(os.Stderr, "inferred %s: %v\n", name, p.entryLocks[name])
+				}
+			}
+		}
+		for name := range p.inferred {
+			if p.tracked[name] && len(p.entryLocks[name]) == 0 && !strings.HasSuffix(name, "Locked") {
+				delete(p.tracked, name) // holds nothing on entry: an ordinary function
+			}
+		}
+	}
 	// pass 3: the real scan
 	for _, fd := range p.funcs {
 		name := c09FuncName(fd)
 		s := p.newScan(fd)
 		held := c09Set{}
 		if locks, ok := p.entryLocks[name]; ok && p.tracked[name] {
-			if len(locks) == 0 {
+			if len(locks) == 0 && !p.inferred[name] {
 				return fmt.Errorf("%s touches anchored state and follows the …Locked convention, but its doc comment does not name the lock the caller holds", name)
 			}
 			for _, l := range locks {
@@ -890,7 +1193,7 @@ func c09Collect(c *ctx) ([]c09Access, []string, error) {
 	for _, a := range c09Anchors {
 		p, ok := byDir[a.dir]
 		if !ok {
-			p = &c09Pkg{c: c, dir: a.dir, anchors: map[string]string{}}
+			p = &c09Pkg{c: c, dir: a.dir, anchors: map[string]string{}, methodPrefix: map[string]string{}}
 			if err := p.load(); err != nil {
 				return nil, nil, err
 			}
@@ -902,6 +1205,9 @@ func c09Collect(c *ctx) ([]c09Access, []string, error) {
 				return nil, nil, fmt.Errorf("anchored field name %s used by two structs in %q", f, a.dir)
 			}
 			p.anchors[f] = a.typ
+			if a.methodPrefix != "" {
+				p.methodPrefix[f] = a.methodPrefix
+			}
 			fieldOrder = append(fieldOrder, a.typ+"."+f)
 		}
 	}
